@@ -739,9 +739,20 @@ func propC13(r *Run) {
 		{fmt.Sprintf("(rnd %d 300)", seed), 7, -1, false},
 		{fmt.Sprintf("(txt %d 1200)", seed), 500, 1, false},
 		{fmt.Sprintf("(rnd %d 70000)", seed+1), 4096, 1, true}, // > 64 KiB incompressible: several flate blocks
+		// every other compression level CreateLevel accepts, incl. 0 = stored blocks and -2 = Huffman only
+		{"x", 0, 0, false},
+		{encStr(">seq1 test\nACGTACGTACGTNNNNACGT\n"), 0, 0, false},
+		{fmt.Sprintf("(rnd %d 300)", seed+7), 7, 0, false},
+		{fmt.Sprintf("(txt %d 1200)", seed+8), 0, -2, false},
+		{fmt.Sprintf("(txt %d 1200)", seed+9), 100, 9, false},
+		{fmt.Sprintf("(rnd %d 400)", seed+10), 0, 5, false},
 	}
 	if thorough {
+		for lv := -2; lv <= 9; lv++ {
+			bodies = append(bodies, bodySpec{fmt.Sprintf("(txt %d %d)", seed+20+lv, 1+r.rng.intn(3000)), r.rng.intn(200), lv, false})
+		}
 		bodies = append(bodies,
+			bodySpec{fmt.Sprintf("(rnd %d 70000)", seed+33), 4096, 0, true},
 			bodySpec{"x00", 0, -1, false},
 			bodySpec{fmt.Sprintf("(rnd %d 59)", seed+2), 0, 1, false},
 			bodySpec{fmt.Sprintf("(rnd %d 1900)", seed+3), 0, -1, false},
